@@ -21,7 +21,8 @@ def dino_configs(tier):
     grids = [(3, 3), (4, 4), (6, 6)] if tier == "quick" else [(3, 3), (4, 4), (4, 6), (5, 5), (6, 6)]
     out = []
     for g in grids:
-        for ratio in ((0.1, 0.5), (0.2, 0.8)):
+        # the last two: upper ratio x grid below min_num_patches (masks must then stay that small, or empty)
+        for ratio in ((0.1, 0.5), (0.2, 0.8), (0.02, 0.1), (0.05, 0.2)):
             for prob in (0.25, 0.5, 1.0):
                 for V in (1, 2):
                     for B in ((1, 2, 4) if tier == "quick" else (1, 2, 3, 4)):
